@@ -20,6 +20,13 @@ use crate::sel::oracle_timed_out;
 use crate::util::{T0, srt_data};
 use crate::world::*;
 
+use std::sync::atomic::{AtomicU64, Ordering as AO};
+/// coverage counters (vacuity guard): situations the explored runs actually went through
+static TEARDOWNS: AtomicU64 = AtomicU64::new(0);
+static REJOINS: AtomicU64 = AtomicU64::new(0);
+static FLAPS: AtomicU64 = AtomicU64::new(0);
+static SEND_FAIL_RESETS: AtomicU64 = AtomicU64::new(0);
+
 #[derive(Clone, Copy, Debug, PartialEq, Eq, Hash)]
 enum Mode {
     Ok,
@@ -68,6 +75,13 @@ pub struct St {
     rec_known: Vec<bool>,
     /// the harness's own liveness clock: when it last handed link l a datagram
     last_delivered: Vec<u64>,
+    /// ... and when it last handed it a datagram that must refresh the receive stamp
+    /// (anything but REG1/REG2/REG_ERR/REG_NGP; REG3 counts)
+    last_live_delivery: Vec<u64>,
+}
+
+fn stamps_liveness(b: &[u8]) -> bool {
+    !matches!(pkt_type(b), Some(0x9200) | Some(0x9201) | Some(0x9210) | Some(0x9211)) && b.len() >= 2
 }
 
 pub struct M {
@@ -166,11 +180,20 @@ impl M {
             // clause 1: teardown only for cause
             let torn = (pre[l].0 && !c.connected) || (!pre[l].1 && matches!(c.phase, LinkPhase::Registering));
             if torn {
+                TEARDOWNS.fetch_add(1, AO::Relaxed);
                 let cause = pre[l].3 || s.mode[l] == Mode::SendFails;
                 if !cause {
                     return Err(Fail::new(
                         "torn-down-before-the-configured-timeout",
                         ctx("housekeeping tore the link down although it has not been silent for the configured timeout and no send failed"),
+                    ));
+                }
+                // the same clause on the harness's own clock (not the link's receive stamp): a link that was
+                // connected and was handed a stamp-refreshing datagram less than the timeout ago is not torn down
+                if pre[l].0 && s.mode[l] != Mode::SendFails && now.saturating_sub(s.last_live_delivery[l]) < timeout {
+                    return Err(Fail::new(
+                        "torn-down-before-the-configured-timeout",
+                        ctx(&format!("the harness handed the link a datagram {} ms ago (own clock), yet housekeeping tore it down", now - s.last_live_delivery[l])),
                     ));
                 }
                 s.mon[l].detected_down = true;
@@ -252,6 +275,9 @@ impl M {
         let mut follow: Vec<(usize, Vec<u8>)> = Vec::new();
         for (l, b) in &replies {
             s.last_delivered[*l] = s.w.now;
+            if stamps_liveness(b) {
+                s.last_live_delivery[*l] = s.w.now;
+            }
             let o = s.w.arm_uplink(env, *l, b);
             // an immediate REG1 (answer to REG_NGP) is answered in the same exchange
             for (l2, b2) in &o.wire {
@@ -263,6 +289,9 @@ impl M {
             }
         }
         for (l, b) in &follow {
+            if stamps_liveness(b) {
+                s.last_live_delivery[*l] = s.w.now;
+            }
             s.last_delivered[*l] = s.w.now;
             s.w.arm_uplink(env, *l, b);
         }
@@ -270,6 +299,7 @@ impl M {
         for l in 0..n {
             let c = &s.w.connections[l];
             if c.connected && !pre_conn[l] {
+                REJOINS.fetch_add(1, AO::Relaxed);
                 if c.window != 20000 || c.in_flight_packets != 0 || !matches!(c.phase, LinkPhase::Warming { .. }) || !c.packet_log.is_empty() {
                     return Err(Fail::new(
                         "rejoin-not-clean",
@@ -288,6 +318,7 @@ impl M {
         for l in 0..n {
             if s.mode[l] == Mode::Flap && s.w.connections[l].connected && !pre_conn[l] {
                 s.mode[l] = Mode::BlackHole;
+                FLAPS.fetch_add(1, AO::Relaxed);
             }
         }
         // ---- client traffic + ACKs
@@ -327,6 +358,11 @@ impl M {
                     }
                 }
             }
+            for l in 0..n {
+                if !down_start[l] && !s.w.connections[l].connected {
+                    SEND_FAIL_RESETS.fetch_add(1, AO::Relaxed);
+                }
+            }
             s.w.advance(15);
             let o = s.w.arm_flush(env);
             for (l, b) in &o.wire {
@@ -354,6 +390,7 @@ impl M {
                 for q in &seen[l] {
                     let mut p = vec![0x91u8, 0x00, 0, 0];
                     p.extend_from_slice(&q.to_be_bytes());
+                    s.last_live_delivery[l] = s.w.now;
                     s.last_delivered[l] = s.w.now;
                     s.w.arm_uplink(env, l, &p);
                     top = top.max(*q);
@@ -365,6 +402,7 @@ impl M {
                     p[0] = 0x80;
                     p[1] = 0x02;
                     p[16..20].copy_from_slice(&top.to_be_bytes());
+                    s.last_live_delivery[l] = s.w.now;
                     s.last_delivered[l] = s.w.now;
                     s.w.arm_uplink(env, l, &p);
                 }
@@ -413,13 +451,15 @@ impl Model for M {
         let (w, rec) = established(env, self.n, cfg, T0);
         let now0 = w.now;
         St {
-            w,
             rec,
             mode: vec![Mode::Ok; self.n],
             mon: vec![LinkMon { last_attempt: 0, ok_since: Some(T0), had_bind_fault: false, detected_down: false }; self.n],
             next_seq: 1000,
             rec_known: vec![true; self.n],
-            last_delivered: vec![now0; self.n],
+            // scripted start state: the clocks start from the links' own stamps
+            last_delivered: (0..self.n).map(|l| w.connections[l].last_received.unwrap_or(now0)).collect(),
+            last_live_delivery: (0..self.n).map(|l| w.connections[l].last_received.unwrap_or(now0)).collect(),
+            w,
         }
     }
     fn n_events(&self) -> usize {
@@ -641,6 +681,18 @@ pub fn run(tier: Tier) -> Report {
             rep.set(&format!("alphabet[{label}]"), json!((0..m.n_events()).map(|e| m.event_name(e)).collect::<Vec<_>>()));
         }
     }
+    let cov = json!({
+        "teardowns_by_housekeeping": TEARDOWNS.load(AO::Relaxed),
+        "rejoins": REJOINS.load(AO::Relaxed),
+        "flaps_gone_dark_after_reg3": FLAPS.load(AO::Relaxed),
+        "resets_by_failed_send_during_traffic": SEND_FAIL_RESETS.load(AO::Relaxed),
+    });
+    for (k, v) in cov.as_object().unwrap() {
+        if v.as_u64() == Some(0) {
+            rep.machinery_errors.push(format!("vacuous: no explored run went through '{k}'"));
+        }
+    }
+    rep.set("situations_covered", cov);
     let n = backoff_product(&mut rep);
     rep.transitions += n;
     rep.set("backoff_predicate_calls", json!(n));
